@@ -638,7 +638,10 @@ theorem viaSock_queue (st : St) (cid : Nat) (ev : Ev) (h : ∀ s ∈ st.socks, s
 def safeExit (hop en : Bool) : Prog → Bool
   | .done => true
   | .act a k => (a != .enable || hop) && (a != .sendto || en) && safeExit hop (en || a == .enable) k
-  | .ite c t e => safeExit (hop || c == .srcIpIsHopIp) (en || c == .sockEnabled) t && safeExit hop en e
+  | .ite c t e =>
+    safeExit (hop || c == .srcIpIsHopIp) (en || c == .sockEnabled) t &&
+    -- the else-branch of a test whose outcome is already known to be true on this path is dead code
+    ((en && c == .sockEnabled) || (hop && c == .srcIpIsHopIp) || safeExit hop en e)
 
 theorem interpExit_none (e : XEnv) : ∀ p : Prog, interpExit e p none = (none, [])
   | .done => rfl
@@ -731,8 +734,22 @@ theorem interpExit_some (e : XEnv) : ∀ (p : Prog) (x : Sock) (hop en : Bool),
         · have : c = .sockEnabled := by simpa using h
           subst this; simpa [condExit] using hc) hs.1
       simpa only [interpExit, hc, if_true] using this
-    · have := interpExit_some e el x hop en hh he hs.2
-      have hc' : condExit e (some x) c = false := by simpa using hc
+    · have hc' : condExit e (some x) c = false := by simpa using hc
+      have hs2 : safeExit hop en el = true := by
+        rcases (Bool.or_eq_true _ _).mp hs.2 with h | h
+        · rcases (Bool.or_eq_true _ _).mp h with h | h
+          · obtain ⟨h1, h2⟩ := (Bool.and_eq_true _ _).mp h
+            have : c = .sockEnabled := by simpa using h2
+            subst this
+            have := he h1
+            simp [condExit, this] at hc'
+          · obtain ⟨h1, h2⟩ := (Bool.and_eq_true _ _).mp h
+            have : c = .srcIpIsHopIp := by simpa using h2
+            subst this
+            have := hh h1
+            simp [condExit, this] at hc'
+        · exact h
+      have := interpExit_some e el x hop en hh he hs2
       simpa only [interpExit, hc', Bool.false_eq_true, if_false] using this
 
 theorem exit_data_prog_safe' : safeExit false false Gen.exit_data_prog = true := by decide
